@@ -2,15 +2,8 @@ package drv
 
 import (
 	"encoding/json"
-	"fmt"
-	"os"
 
 	"github.com/cloudwego/thriftgo/internal/verifsim/simrt"
 )
 
 func pluginProgram(p *simrt.Proc, script json.RawMessage) int { return 0 }
-
-func runBatch(path string) {
-	fmt.Fprintln(os.Stderr, "no batch drivers yet")
-	os.Exit(3)
-}
